@@ -135,7 +135,7 @@ Proof.
 Qed.
 
 (* ---- one character ---------------------------------------------------------------------------------------------------------- *)
-Definition Safe (o : outcome) : Prop := match o with OPanic _ | ODiverge => False | _ => True end.
+Definition Safe (o : outcome) : Prop := match o with OPanic _ | ODeep _ => False | _ => True end.
 Lemma safe_lift : forall r p, okr r -> Safe (lift r p).
 Proof. intros r p [t' E]. rewrite E. exact I. Qed.
 
@@ -216,8 +216,7 @@ Proof.
            | |- Safe (match nums p with _ => _ end) => destruct (nums p) as [|n1 [|n2 [|n3 [|n4 [|n5 [|n6 [|n7 r]]]]]]]
            | |- Safe (let '(_, _) := ?x in _) => destruct x
            end; try exact I; try (slift HI).
-    all: try (match goal with |- Safe (match ?f ?a ?b ?c with _ => _ end) =>
-                pose proof (Hinv a b c HI eq_refl) as G; destruct (f a b c); exact G end).
+    all: try (apply Hinv; [exact HI|reflexivity]).
     all: repeat match goal with |- Safe (match ?z with _ => _ end) => destruct z end; try exact I.
   - sifs; exact I.
   - sifs; try exact I. unfold execute_dcs. destruct (starts_with _ _).
@@ -247,17 +246,17 @@ Proof.
     intros t0 p0 id _ E; rewrite E, HM; exact I.
 Qed.
 
-Definition SafeM (o : mout) : Prop := match o with MPanic _ | MDiverge => False | _ => True end.
+Definition SafeM (o : mout) : Prop := match o with MPanic _ => False | _ => True end.
 Lemma fallback_safe : forall m ch, Inv09 (mt m) -> macros (ps (am m)) = [] -> SafeM (fallback m ch).
 Proof.
-  intros m ch HI HM. unfold fallback. pose proof (astep_safe MACRO_FUEL (am m) ch HI HM) as G. unfold ansi_step.
-  destruct (astep MACRO_FUEL (am m) ch); exact G.
+  intros m ch HI HM. unfold fallback. pose proof (astep_safe _ (am m) ch HI HM : Safe (ansi_step (am m) ch)) as G.
+  destruct (ansi_step (am m) ch); first [exact G | contradiction].
 Qed.
 Lemma mlift_safe : forall m r, okr r -> SafeM (mlift m r).
 Proof. intros m r [t' E]. rewrite E. exact I. Qed.
 
 (* the emulations that do not wrap the ANSI parser: no stored macros, no resize, no known site *)
-Definition NoPanic (o : mout) : Prop := match o with MPanic _ | MDiverge => False | _ => True end.
+Definition NoPanic (o : mout) : Prop := match o with MPanic _ => False | _ => True end.
 Lemma mlift_np : forall m r, okr r -> NoPanic (mlift m r).
 Proof. intros m r [t' E]. rewrite E. exact I. Qed.
 Ltac npifs := repeat match goal with |- NoPanic (if ?c then _ else _) => destruct c end.
@@ -336,7 +335,7 @@ Proof.
       assert (HA : InvA (am m)) by (intro; exact HI).
       pose proof (step_good e m c Sc HA) as G. pose proof (standalone_keeps_ps e m c He) as N.
       assert (S1 : NoPanic (step e m c)) by (destruct e; try discriminate; cbn [step]; [apply ascii_step_np|apply atascii_step_np]; exact HI).
-      destruct (step e m c) as [m1|m1|s|]; try contradiction.
+      destruct (step e m c) as [m1|m1|s]; try contradiction.
       - apply IH; [apply G; rewrite N; exact HR|rewrite N; exact HR].
       - apply IH; [apply G; rewrite N; exact HR|rewrite N; exact HR]. }
     apply K; [apply init_09; assumption|reflexivity].
@@ -344,7 +343,7 @@ Proof.
     { induction cs0 as [|c r IH]; intros m HI; cbn; [eexists; reflexivity|].
       pose proof (step_fg e w h m c Sc (proj1 Hw) (proj1 Hh) HI) as G.
       assert (S1 : NoPanic (step e m c)) by (destruct e; try discriminate; cbn [step]; [apply viewdata_step_np|eapply mode7_step_np; eauto; lia]).
-      destruct (step e m c) as [m1|m1|s|]; try contradiction; apply IH; exact G. }
+      destruct (step e m c) as [m1|m1|s]; try contradiction; apply IH; exact G. }
     apply K. apply init_fg; lia.
 Qed.
 
@@ -359,7 +358,7 @@ Proof.
   assert (H0 : InvA (am (init music bs w h))) by (intro; apply init_09; assumption).
   pose proof (run_good EAnsi cs _ _ eq_refl H0 R NR) as HI.
   cbn [step]. pose proof (fallback_safe m ch HI NM) as G.
-  destruct (fallback m ch) as [m1|m1|s|]; try contradiction; exists m1; auto.
+  destruct (fallback m ch) as [m1|m1|s]; try contradiction; exists m1; auto.
 Qed.
 
 Lemma astep_ok_or_err : forall fuel m ch, Inv09 (tm m) -> macros (ps m) = [] ->
@@ -385,7 +384,7 @@ Proof.
   pose proof (fallback_safe m c (HA NR) NM) as S1.
   pose proof (step_good EAnsi m c eq_refl HA) as G1.
   cbn [run step]. cbn [step] in G1.
-  destruct (fallback m c) as [m1|m1|s|] eqn:F; try contradiction.
+  destruct (fallback m c) as [m1|m1|s] eqn:F; try contradiction.
   - destruct (IH m1 G1) as [[m' E]|(pre & c' & post & m' & E1 & E2 & U)].
     + left. exists m'. exact E.
     + right. exists (c :: pre), c', post, m'. repeat split; [rewrite E1; reflexivity| |exact U].
